@@ -124,10 +124,13 @@ func (cons *VesaFbConsole) SetLogo(l *logo.Image) {
 				cons.fb[fbOffset] = colorComp[0]
 				cons.fb[fbOffset+1] = colorComp[1]
 			case 24, 32:
-				colorComp := cons.packColor24(c)
+				colorComp := cons.packColor32(c)
 				cons.fb[fbOffset] = colorComp[0]
 				cons.fb[fbOffset+1] = colorComp[1]
 				cons.fb[fbOffset+2] = colorComp[2]
+				if cons.bytesPerPixel == 4 {
+					cons.fb[fbOffset+3] = colorComp[3]
+				}
 			}
 		}
 	}
@@ -219,13 +222,16 @@ func (cons *VesaFbConsole) fill16(pX, pY, pW, pH uint32, bg uint8) {
 
 // fill24 implements a fill operation using a 24/32bpp framebuffer.
 func (cons *VesaFbConsole) fill24(pX, pY, pW, pH uint32, bg uint8) {
-	comp := cons.packColor24(bg)
+	comp := cons.packColor32(bg)
 	fbRowOffset := cons.fbOffset(pX, pY)
 	for ; pH > 0; pH, fbRowOffset = pH-1, fbRowOffset+cons.pitch {
 		for fbOffset := fbRowOffset; fbOffset < fbRowOffset+pW*cons.bytesPerPixel; fbOffset += cons.bytesPerPixel {
 			cons.fb[fbOffset] = comp[0]
 			cons.fb[fbOffset+1] = comp[1]
 			cons.fb[fbOffset+2] = comp[2]
+			if cons.bytesPerPixel == 4 {
+				cons.fb[fbOffset+3] = comp[3]
+			}
 		}
 	}
 }
@@ -362,8 +368,8 @@ func (cons *VesaFbConsole) write24(glyphIndex, fg, bg uint8, pX, pY uint32) {
 		fbOffset    uint32
 		x, y        uint32
 		mask        uint8
-		fgComp      = cons.packColor24(fg)
-		bgComp      = cons.packColor24(bg)
+		fgComp      = cons.packColor32(fg)
+		bgComp      = cons.packColor32(bg)
 	)
 
 	for y = 0; y < cons.font.GlyphHeight; y, fbRowOffset, fontOffset = y+1, fbRowOffset+cons.pitch, fontOffset+1 {
@@ -380,14 +386,15 @@ func (cons *VesaFbConsole) write24(glyphIndex, fg, bg uint8, pX, pY uint32) {
 				mask = 1 << 7
 			}
 
+			comp := &bgComp
 			if (fontRowData & mask) != 0 {
-				cons.fb[fbOffset] = fgComp[0]
-				cons.fb[fbOffset+1] = fgComp[1]
-				cons.fb[fbOffset+2] = fgComp[2]
-			} else {
-				cons.fb[fbOffset] = bgComp[0]
-				cons.fb[fbOffset+1] = bgComp[1]
-				cons.fb[fbOffset+2] = bgComp[2]
+				comp = &fgComp
+			}
+			cons.fb[fbOffset] = comp[0]
+			cons.fb[fbOffset+1] = comp[1]
+			cons.fb[fbOffset+2] = comp[2]
+			if cons.bytesPerPixel == 4 {
+				cons.fb[fbOffset+3] = comp[3]
 			}
 		}
 	}
@@ -400,8 +407,16 @@ func (cons *VesaFbConsole) fbOffset(x, y uint32) uint32 {
 }
 
 // packColor24 encodes a palette color into the pixel format required by a
-// 24/32 bpp framebuffer.
+// 24 bpp framebuffer.
 func (cons *VesaFbConsole) packColor24(colorIndex uint8) [3]uint8 {
+	comp := cons.packColor32(colorIndex)
+	return [3]uint8{comp[0], comp[1], comp[2]}
+}
+
+// packColor32 encodes a palette color into the pixel format required by a
+// 24/32 bpp framebuffer. The last byte is only stored for 32 bpp framebuffers;
+// it carries the color bits of layouts with a component above bit 23.
+func (cons *VesaFbConsole) packColor32(colorIndex uint8) [4]uint8 {
 	var (
 		c             = cons.palette[colorIndex].(color.RGBA)
 		packed uint32 = 0 |
@@ -410,10 +425,11 @@ func (cons *VesaFbConsole) packColor24(colorIndex uint8) [3]uint8 {
 			(uint32(c.B>>(8-cons.colorInfo.BlueMaskSize)) << cons.colorInfo.BluePosition)
 	)
 
-	return [3]uint8{
+	return [4]uint8{
 		uint8(packed),
 		uint8(packed >> 8),
 		uint8(packed >> 16),
+		uint8(packed >> 24),
 	}
 }
 
@@ -505,17 +521,21 @@ func (cons *VesaFbConsole) replace16(src, dst color.RGBA) {
 func (cons *VesaFbConsole) replace24(src, dst color.RGBA) {
 	tmp := cons.palette[0]
 	cons.palette[0] = src
-	srcComp := cons.packColor24(0)
+	srcComp := cons.packColor32(0)
 	cons.palette[0] = dst
-	dstComp := cons.packColor24(0)
+	dstComp := cons.packColor32(0)
 	cons.palette[0] = tmp
 	for fbOffset := cons.fbOffset(0, 0); fbOffset < uint32(len(cons.fb)); fbOffset += cons.bytesPerPixel {
 		if cons.fb[fbOffset] == srcComp[0] &&
 			cons.fb[fbOffset+1] == srcComp[1] &&
-			cons.fb[fbOffset+2] == srcComp[2] {
+			cons.fb[fbOffset+2] == srcComp[2] &&
+			(cons.bytesPerPixel != 4 || cons.fb[fbOffset+3] == srcComp[3]) {
 			cons.fb[fbOffset] = dstComp[0]
 			cons.fb[fbOffset+1] = dstComp[1]
 			cons.fb[fbOffset+2] = dstComp[2]
+			if cons.bytesPerPixel == 4 {
+				cons.fb[fbOffset+3] = dstComp[3]
+			}
 		}
 	}
 }
